@@ -28,6 +28,7 @@ class Spec:
     """expected outcome of a program, tracked op by op"""
 
     def __init__(self):
+        self.handle_attached = {}    # root key -> positions of attachments made through span handles (each parks at most one item)
         self.reporter = False
         self.cancelable = False
         self.spans = {}       # var -> None | dict
@@ -133,6 +134,8 @@ class Spec:
             op = "localEnter"
         elif op == "childLocalRe":
             op = "childLocal"
+        if op == "decodeTp":
+            return
         if op == "pushChildLast":
             # the caller's last handle of the set is moved into the call: pushed as by `pushChild`, the variable is gone
             self.apply("%d pushChild %s %s" % (t, a[0], a[1]), pos)
@@ -224,6 +227,7 @@ class Spec:
                     if it["sampled"]:
                         self.touch(t)
                         sp["attached"].append((it["root"], ("props", kvs), ("handle", t)))
+                        self.handle_attached.setdefault(it["root"], []).append(pos)
         elif op == "addEvent":
             sp = self.spans[a[0]]
             name = unhx(a[1])
@@ -233,6 +237,7 @@ class Spec:
                     if it["sampled"]:
                         self.touch(t)
                         sp["attached"].append((it["root"], ("event", name, props), ("handle", t)))
+                        self.handle_attached.setdefault(it["root"], []).append(pos)
         elif op == "drop":
             self.drop_record(t, self.spans.pop(a[0]), pos)
         elif op == "cancel":
@@ -748,6 +753,26 @@ class Gen:
         props = None if self.r.chance(1, 3) else self.kvs()
         self.emit(t, "lAddEvent %s %s" % (hx(self.name("e")), "none" if props is None else wprops(props)))
 
+    def op_decode_tp(self, t):
+        """a traceparent header as it may come from the network: well-formed, or of the right length with a multi-byte
+        character at a random byte offset, or garbage"""
+        r = self.r
+        good = "00-%032x-%016x-%02x" % (r.below(1 << 62) * 7 + 1, r.below(1 << 62) + 1, r.below(2))
+        k = r.below(4)
+        if k == 0:
+            text = good
+        elif k == 1:
+            ch = r.pick(["é", "€", "日", "😀", "ß"])
+            b = good.encode()
+            n = len(ch.encode())
+            at = 1 + r.below(len(b) - n - 1)
+            text = (b[:at].decode() + ch + b[at + n:].decode())
+        elif k == 2:
+            text = good[:r.below(len(good))] + r.pick(["", "-", "+", "é", "0x", " "]) + good[r.below(len(good)):]
+        else:
+            text = "".join(r.pick(list("0123456789abcdefABCDEF-+ x€é")) for _ in range(r.below(70)))
+        self.emit(t, "decodeTp %s" % hx(text))
+
     def op_push_child(self, t, v, x):
         last = self.k.get("move_sets") and self.r.chance(1, 3)
         self.emit(t, "pushChild%s %s %s" % ("Last" if last else "", v, x))
@@ -1209,7 +1234,7 @@ class Gen:
                 continue
             spans = list(s.spans)
             top = th["guards"][-1] if th["guards"] else None
-            choices = [("root", 5), ("localEnter", 6), ("lAddEvent", 2), ("lAddProps", 3), ("ctxLocal", 3), ("childLocal", 3), ("collector", 2), ("childN0", 1)]
+            choices = [("root", 5), ("localEnter", 6), ("lAddEvent", 2), ("lAddProps", 3), ("ctxLocal", 3), ("childLocal", 3), ("collector", 2), ("childN0", 1), ("decodeTp", 1)]
             if spans:
                 choices += [("child1", 5), ("childN", 3), ("ctxOf", 2), ("elapsed", 1), ("withProps", 3), ("scope", 6), ("drop", 5),
                             ("addProps", 3), ("addEvent", 2), ("cancel", 2)]
@@ -1283,6 +1308,8 @@ class Gen:
                 self.op_l_add_props(t)
             elif c == "lAddEvent":
                 self.op_l_add_event(t)
+            elif c == "decodeTp":
+                self.op_decode_tp(t)
             elif c == "ctxLocal":
                 self.op_ctx_local(t)
             elif c == "pushChild":
